@@ -112,6 +112,14 @@ class Monitor:
 
     def watch_diagnostic(self, codes):
         self.g2codes = set()
+        # the generation drivers of kingdon.codegen count as G events too (looked up by name; if they are
+        # renamed the registry's codegen callables and the K events remain)
+        for c in codes:
+            if c.co_filename.endswith('codegen.py') and c.co_qualname in ('do_codegen', 'do_compile', 'lambdify', 'func_builder'):
+                if c not in self.gcodes:
+                    self.gcodes.add(c)
+                    cur = mon.get_local_events(TOOL, c)
+                    mon.set_local_events(TOOL, c, cur | EV.PY_START)
         for c in codes:
             if c.co_filename.endswith(('codegen.py', 'taperecorder.py')) and c not in self.gcodes:
                 self.g2codes.add(c)
